@@ -146,7 +146,7 @@ CLAIMED = {
              "for four attribute sets with any raw values (validity from the invalid-state attribute, failure exactly outside the documented set, scaled integers, absent-when-flagged, row/column defaults, "
              "normalisation switches).",
         note="Iterator::next bookkeeping (count/order equal to the raw iterator, switches per batch) is NOT covered. Division inside normalisation is uninterpreted here (value properties: C13). "
-             "pop_point counterexamples are not replayed natively yet (reported inconclusive).",
+             "Counterexamples are replayed natively (conversions with the platform libm).",
         technique="symbolic execution of rustc MIR into SMT (z3) with uninterpreted libm functions",
         ref="§6 C05"),
 }
